@@ -146,6 +146,11 @@ class EncErr(Exception):
     pass
 
 
+class ExitPop(Exception):
+    """a pop from stack 1 / 2 ends the process: such a program cannot be replayed step by step in-process"""
+    pass
+
+
 def machine_run(cmds, stacks, max_steps, stdin=""):
     """Reference interpreter (language definition): six commands, areas, labels, stdin refill of stack 0 and output
     on stacks 1/2 (no command may pop stack 1/2). Returns the replay driver's text."""
@@ -157,6 +162,8 @@ def machine_run(cmds, stacks, max_steps, stdin=""):
     outs = {1: bytearray(), 2: bytearray()}
 
     def pop(i):
+        if i in (1, 2):
+            raise ExitPop()
         s_ = st.setdefault(i, [])
         if i == 0 and not s_:
             line = lines.pop() if lines else ""
@@ -184,6 +191,16 @@ def machine_run(cmds, stacks, max_steps, stdin=""):
     def mul(a, b):
         return None if a is None or b is None else a * b
 
+    failed = False
+    try:
+        return _machine_loop(cmds, st, lines, outs, pop, push, add, mul, max_steps)
+    except ExitPop:
+        return None
+
+
+def _machine_loop(cmds, st, lines, outs, pop, push, add, mul, max_steps):
+    cur, loc, steps = 3, 0, 0
+    points, latest = {}, None
     failed = False
     while loc < len(cmds) and steps < max_steps:
         ty, h, d, tree = cmds[loc]
@@ -347,7 +364,7 @@ def cases_for(op, seed):
                 if ty == 0:
                     d = rnd.randint(0, 4)
                 elif ty == 5:
-                    d = rnd.choice([0, 0, 3, 4]) if use_stdin else rnd.randint(3, 5)
+                    d = rnd.choice([0, 0, 3, 4]) if use_stdin else (rnd.choice([1, 2, 3, 4, 0]) if it % 5 == 0 else rnd.randint(3, 5))
                 else:
                     d = rnd.choice([0, 1, 2, 3, 4]) if use_stdin else rnd.choice([1, 2, 3, 3, 4, 5])
                 tr = rnd.choice(trees)
